@@ -221,7 +221,7 @@ def fam_awaiters(seed, i):
     for c in names:
         p = Prog(rng, c, handles.get(c, {}), wj if (joiner and c == "c1") else w, scripts, cnt)
         p.cancel_p = 0.15
-        p.join_d = [0, 2, 2, 3, 1]
+        p.join_d = [0, 2, 2, 3, 1, 5]
         sc["clients"][c] = p.run(rng.randint(3, 9))
     return sc
 
